@@ -394,6 +394,11 @@ def run_phybo_wordlist(chk):
                             continue
                         ptaxa = list(phy.taxa)
                         pats = {cog: list(phy.paps[cog]) for cog in phy.cogs}
+                        if not pats:
+                            # only singleton sets: there is no pattern to explain (get_GLS then fails in its statistics with a division
+                            # by zero - no scenario is involved, not this property's matter)
+                            chk.hist['rejected:no cognate set with two reflexes'] += 1
+                            continue
                         w, r = rng.choice(WEIGHTS), rng.choice([2, 3, 4])
                         gpl, push = rng.choice([1, 2]), rng.random() < 0.5
                         kw = dict(ratio=w, gpl=gpl, push_gains=push) if mode == 'weighted' else dict(restriction=r, gpl=gpl, push_gains=push)
